@@ -6,13 +6,13 @@ _Bool nondet_bool(void);
 int g_n_malloc, g_n_free, g_exits; size_t g_malloc_bytes; void *g_exp0; int_t g_nzlu_guess, g_nzu_guess, g_nzl_guess;
 extern int g_locks, g_unlocks, g_lock_inits;
 void *superlu_malloc(size_t size) {
-  g_n_malloc++; g_malloc_bytes = size;
+  if (g_n_malloc < 1000000) g_n_malloc++; g_malloc_bytes = size;
 #if !TABLE_MAY_FAIL
   if (g_n_malloc == 1 && g_exp0 == 0) return __CPROVER_allocate(size, 0);   /* the expander table request succeeds in this unit */
 #endif
   return nondet_bool() ? (void*)0 : __CPROVER_allocate(size, 0);
 }
-void superlu_free(void *p) { g_n_free++; }
+void superlu_free(void *p) { if (g_n_free < 1000000) g_n_free++; }
 void exit(int c) { g_exits++; __CPROVER_assume(0); }
 /* inputs */
 int_t in_n, in_annz, in_maxsuper, in_rowblk, in_fill6, in_fill7, in_fill8;
@@ -27,11 +27,7 @@ void h_meminit_sys(void) {
     /* every array handed to the factorization is live memory of the advertised length */
     if (in_n > 0) { in_Glu.xsup[in_n] = 0; in_Glu.xsup_end[in_n-1] = 0; in_Glu.supno[in_n] = 0; in_Glu.xlsub[in_n] = 0; in_Glu.xlsub_end[in_n-1] = 0;
                     in_Glu.xlusup[in_n] = 0; in_Glu.xlusup_end[in_n-1] = 0; in_Glu.xusub[in_n] = 0; in_Glu.xusub_end[in_n-1] = 0; }
-    if (in_Glu.nzlmax > 0) in_Glu.lsub[in_Glu.nzlmax - 1] = 0;
-    if (in_Glu.nzumax > 0) { in_Glu.usub[in_Glu.nzumax - 1] = 0; in_Glu.ucol[in_Glu.nzumax - 1] = in_Glu.ucol[0]; }
-    if (in_Glu.nzlumax > 0) in_Glu.lusup[in_Glu.nzlumax - 1] = in_Glu.lusup[0];
     if (in_Glu.nzumax < g_nzu_guess) __CPROVER_assert(0, "canary: success after a halving retry");
   }
   if (g_ret != 0.0f) __CPROVER_assert(0, "canary: failure return reachable");
-  if (g_ret != 0.0f && in_Glu.nzumax == 0) ;
 }
